@@ -1,8 +1,8 @@
 (* C07 — @ignore suppresses exactly the diagnostics in its scope that match its codes. Statements only. *)
-From Coq Require Import List String ZArith Bool.
+From Coq Require Import List String ZArith Bool Lia.
 From GG Require Import Base.Strs Model.Codes Model.IgnoreSet Model.Config Model.GoAst Model.Annot Model.Annots Model.Analyze
                        Extracted Exec Proofs.IgnoreSetProofs Proofs.CodesProofs Proofs.WalkProofs Proofs.CheckerProofs Proofs.IgnoreProofs.
-From GG Require Proofs.OpsProofs Proofs.OneMoreProofs Proofs.DiagProofs.
+From GG Require Proofs.OpsProofs Proofs.OneMoreProofs Proofs.DiagProofs Proofs.LocalProofs Proofs.PosProofs.
 Import ListNotations.
 Local Open Scope string_scope.
 Local Open Scope Z_scope.
@@ -167,6 +167,43 @@ Theorem C07_whole_analysis_report_time_effect :
      In d (OneMoreProofs.diags_under cfg p all sup) /\ hit C s e (d_code d) (d_pos d) = false).
 Proof. intros cfg p all sup C s e d H. exact (OneMoreProofs.report_time_effect cfg p all sup (hit C s e) d H). Qed.
 
+(* (8'') ... and a comment in one file cannot touch another file: its scope lies inside its own file's range of positions
+   (LocalProofs.scope_in_span), so for every IMPL / IMM / CTOR diagnostic positioned outside that range - in particular in any
+   other file of the package, whose range is disjoint - membership in the result is unchanged *)
+Theorem C07_other_files_unchanged :
+  forall cfg p all sup f c' C s e d,
+    LocalProofs.file_range_ok f = true -> In c' (List.concat (f_comments f)) -> scope f c' = Some (s, e) ->
+    In (d_code d) (DiagProofs.IMPL_CODES ++ DiagProofs.IMM_CODES ++ DiagProofs.CTOR_CODES)%list ->
+    (d_pos d < LocalProofs.span_lo f \/ LocalProofs.span_hi f < d_pos d) ->
+    (In d (OneMoreProofs.diags_under cfg p all (fun c q => hit C s e c q || sup c q)) <-> In d (OneMoreProofs.diags_under cfg p all sup)).
+Proof.
+  intros cfg p all sup f c' C s e d Hok Hc Hs Hcode Hout.
+  rewrite (C07_whole_analysis_report_time_effect cfg p all sup C s e d Hcode).
+  destruct (LocalProofs.scope_in_span f c' s e Hok Hc Hs) as [H1 H2].
+  assert (Hh : hit C s e (d_code d) (d_pos d) = false).
+  { unfold hit. destruct (s <=? d_pos d) eqn:E1; [|reflexivity]. destruct (d_pos d <=? e) eqn:E2; [|reflexivity].
+    apply Z.leb_le in E1, E2. exfalso. destruct Hout; Lia.lia. }
+  rewrite Hh. tauto.
+Qed.
+
+(* ... and the once-per-file checkers of every OTHER file g of the package (ranges disjoint) return literally the same list:
+   a comment in f neither removes a TONL / PKGO diagnostic of g nor moves a once-per-file report inside g *)
+Theorem C07_other_files_once_per_file_unchanged :
+  forall fs cur cur_name sup f c' C s e g,
+    LocalProofs.file_range_ok f = true -> LocalProofs.file_range_ok g = true ->
+    In c' (List.concat (f_comments f)) -> scope f c' = Some (s, e) ->
+    (LocalProofs.span_hi f < LocalProofs.span_lo g \/ LocalProofs.span_hi g < LocalProofs.span_lo f) ->
+    tonl_file fs cur (fun c q => hit C s e c q || sup c q) g = tonl_file fs cur sup g /\
+    pkgo_file fs cur cur_name (fun c q => hit C s e c q || sup c q) g = pkgo_file fs cur cur_name sup g.
+Proof.
+  intros fs cur cur_name sup f c' C s e g Hf Hg Hc Hs Hdis.
+  destruct (LocalProofs.scope_in_span f c' s e Hf Hc Hs) as [H1 H2].
+  assert (Hout : forall c q, LocalProofs.in_span g q -> hit C s e c q = false).
+  { intros c q [Ha Hb]. unfold hit. destruct (s <=? q) eqn:E1; [|reflexivity]. destruct (q <=? e) eqn:E2; [|reflexivity].
+    apply Z.leb_le in E1, E2. exfalso. destruct Hdis; lia. }
+  split; [apply (PosProofs.tonl_file_other fs cur sup (hit C s e) g Hg Hout)|apply (PosProofs.pkgo_file_other fs cur cur_name sup (hit C s e) g Hg Hout)].
+Qed.
+
 Print Assumptions C07_scope_file_level.
 Print Assumptions C07_scope_end_not_inline.
 Print Assumptions C07_next_node_is_first_after.
@@ -182,3 +219,5 @@ Print Assumptions C07_effect_report_time.
 Print Assumptions C07_effect_detection_time.
 Print Assumptions C07_whole_analysis_one_more_comment.
 Print Assumptions C07_whole_analysis_report_time_effect.
+Print Assumptions C07_other_files_unchanged.
+Print Assumptions C07_other_files_once_per_file_unchanged.
